@@ -17,7 +17,7 @@ Output, Receipt, UpgradePurpose, ScriptExecutionResult, BlockHeader (forward) an
 enums (reverse) lists every variant without wildcard, and the arm for variant X builds / calls the constructor
 of variant X in the other representation. (4) StorageDB::store_block: the insert of the block and of the latest
 height happens only when there is no current height or the new height is its successor (`height != next` leads
-to the error exit); both inserts and the commit belong to one storage transaction and each failure propagates.
+to the error exit); both inserts and the commit belong to one storage transaction and each failure propagates. (5) fuel_block_from_protobuf: the Revert/Panic test and the message-id collection act on the receipts of the transaction of the current iteration, ids are taken only from successful transactions, and Block::new regenerates the header from exactly those ids, the converted transactions and the converted header.
 """
 NOT_DECIDED = """Order of positional constructor arguments of the same type in the reverse direction (e.g. ra/rb of a Log receipt), byte-level
 encodings (as_ref/try_from lengths), values of recomputed header fields."""
